@@ -163,3 +163,11 @@ def _(v):
     want = {"A": -3 * r[0] - r[1] + r[2] + r[4], "B": r[0] - 2 * r[1], "C": 3 * r[1] - r[2] - r[3], "D": r[3] - 3 * r[4]}
     for e, s in zip(odesys.exprs, "ABCD"):
         v.prove_identity("rhs_" + s, e, want[s])
+    # the same system object after one rate constant was re-assigned: the next system built from it uses the new constant
+    rsys.rxns[2].param = 11
+    ode2, _x = v.call(get_odesys, rsys, SymbolicSys=FakeSymbolicSys)
+    y2 = dict(zip(ode2.names, ode2.dep))
+    r = [F(1, 2) * y2["A"] ** 3, F(1, 4) * y2["B"] ** 2 * y2["A"], 11 * y2["C"], 7 * y2["C"], F(1, 8) * y2["D"] ** 3]
+    want2 = {"A": -3 * r[0] - r[1] + r[2] + r[4], "B": r[0] - 2 * r[1], "C": 3 * r[1] - r[2] - r[3], "D": r[3] - 3 * r[4]}
+    for e, s in zip(ode2.exprs, "ABCD"):
+        v.prove_identity("rebuilt_after_changing_a_constant.rhs_" + s, e, want2[s])
